@@ -587,6 +587,8 @@ struct LpFinal {
 	/// claims on tracked outputs already registered when the prefix ends (holder HTLC claims made at broadcast time)
 	init_claims: [Vec<(u32, u32)>; 2],
 	init_locked: [Vec<u32>; 2],
+	/// which node broadcast each transaction of the reference run (the blocks of a replay are the reference's)
+	by_node: HashMap<Txid, usize>,
 	n_blocks: usize,
 }
 
@@ -632,6 +634,9 @@ struct LpExec<'a> {
 	/// (node, output id) whose spend once had ANTI_REORG_DELAY confirmations; oid 0 = the commitment itself: conclusions about
 	/// them are irrevocable by design, a later (deep) reorg need not retract them
 	buried: HashSet<(usize, u32)>,
+	/// label of the cv queries (scenario.style.step): the query is a distinct case at every point of every history
+	label: String,
+	step: u32,
 	out: LpOut,
 }
 
@@ -641,7 +646,7 @@ impl<'a> LpExec<'a> {
 		let ba: Vec<(u64, bool)> = lp.ba.iter().map(|x| (x.0, x.1 == When::Before)).collect();
 		let (w, pays) = build_prefix_pays(&ab, &ba, lp.closer);
 		let mut e = LpExec { w, pays, lp, style, live, reference: fin.is_none(), ids: HashMap::new(), cat: [BTreeMap::new(), BTreeMap::new()], tracked: vec![], commitment: Txid::from_raw_hash(bitcoin::hashes::Hash::all_zeros()),
-			mempool: vec![], seen: HashSet::new(), by_node: HashMap::new(), events: [vec![], vec![]], first_seen: [BTreeMap::new(), BTreeMap::new()], provided: vec![], buried: HashSet::new(), out: LpOut::default() };
+			mempool: vec![], seen: HashSet::new(), by_node: HashMap::new(), events: [vec![], vec![]], first_seen: [BTreeMap::new(), BTreeMap::new()], provided: vec![], buried: HashSet::new(), label: format!("{}.{}", lp.seed % 100_000, STYLES.iter().position(|x| *x == style).unwrap_or(99)), step: 0, out: LpOut::default() };
 		e.provided = whens(lp).iter().map(|w| *w == When::Before).collect();
 		e.take();
 		// the closer's commitment transaction and the tracked outputs on it
@@ -660,6 +665,7 @@ impl<'a> LpExec<'a> {
 			if e.w.h0 != f.h0 || e.w.net.nodes[0].best_block_hash() != f.h0_hash || e.commitment != f.commitment { return Err("prefix not reproducible".to_string()); }
 			e.ids = f.ids.clone();
 			e.cat = f.cat.clone();
+			for (k, v) in f.by_node.iter() { e.by_node.entry(*k).or_insert(*v); }
 		}
 		set_style(&e.w.net, style);
 		Ok(e)
@@ -732,7 +738,8 @@ impl<'a> LpExec<'a> {
 			}
 		}
 		let cv = self.cv_line(n);
-		rec.case(&format!("{} cv", n), &cv, &format!("{}/cv", class), true);
+		self.step += 1;
+		rec.case(&format!("{} cv {}.{}", n, self.label, self.step), &cv, &format!("{}/cv", class), true);
 	}
 
 	/// model directives describing the scenario to the driver (replays only)
@@ -760,7 +767,7 @@ impl<'a> LpExec<'a> {
 			for (i, w) in whens(self.lp).iter().enumerate() { if *w == When::Before && self.pays[i].to == n { rec.directive(&format!("{} pre {}", n, i + 1)); } }
 			for (o, c) in fin.init_claims[n].iter() { rec.directive(&format!("{} initclaim {} {}", n, o, c)); }
 			let cv = self.cv_line(n);
-			rec.case(&format!("{} cv", n), &cv, &format!("lp/{:?}/init/cv", self.style), true);
+			rec.case(&format!("{} cv {}.0", n, self.label), &cv, &format!("lp/{:?}/init/cv", self.style), true);
 		}
 	}
 
@@ -832,6 +839,11 @@ impl<'a> LpExec<'a> {
 			self.poll(n);
 		}
 		self.take();
+		// the re-org evicts the mempool: apart from the commitment only what the nodes (re-)broadcast from now on
+		// can be mined — a claim that is no longer tracked is not re-broadcast and the HTLC is not collected (O2)
+		let c = self.commitment;
+		self.mempool.retain(|t| t.compute_txid() == c);
+		self.seen.retain(|id| *id == c);
 	}
 
 	fn claim(&mut self, rec: &mut Rec, i: usize) {
@@ -884,7 +896,8 @@ impl<'a> LpExec<'a> {
 				if self.spender(n, &t.op).is_none() && (self.buried.contains(&(n, t.oid)) || (self.buried.contains(&(n, 0)) && self.lp.df < 0)) { continue; }
 				let at = whens(self.lp)[t.pay];
 				match self.spender(n, &t.op) {
-					None => self.out.fails.push(format!("{}O2 after draining ({} blocks past the rebroadcast) node {} never claimed HTLC {} although it held the preimage (provided {:?}): output {}:{} still unspent [{}]", self.tag(t, at), self.lp.drain, n, t.pay + 1, at, &t.op.txid.to_string()[..8], t.op.vout, if t.holder { "holder commitment" } else { "counterparty commitment" })),
+					// (a replay follows the reference run's blocks: if this node did re-broadcast its claim but the fixed chain does not contain it, nothing can be concluded)
+					None => if !self.out.pending[n].split(',').any(|x| x == t.oid.to_string()) { self.out.fails.push(format!("{}O2 after draining ({} blocks past the rebroadcast) node {} never claimed HTLC {} although it held the preimage (provided {:?}): output {}:{} still unspent [{}]", self.tag(t, at), self.lp.drain, n, t.pay + 1, at, &t.op.txid.to_string()[..8], t.op.vout, if t.holder { "holder commitment" } else { "counterparty commitment" })); },
 					Some((s, h)) => {
 						if self.by_node.get(&s) != Some(&n) { self.out.fails.push(format!("{}O2 HTLC {} was spent by the counterparty's transaction {} although node {} held the preimage (provided {:?})", self.tag(t, at), t.pay + 1, &s.to_string()[..8], n, at)); continue; }
 						let confs = self.height(n) + 1 - h;
@@ -991,7 +1004,7 @@ fn lp_reference(lp: &Lp, rec: &mut Rec) -> Result<LpFinal, String> {
 		eprintln!("  fails={:?}\n  pending={:?} cat={:?}", e.out.fails, e.out.pending, e.cat);
 	}
 	let n_blocks = steps.iter().filter(|s| matches!(s, Step::Blk(_))).count();
-	let fin = LpFinal { h0, h0_hash, steps, ids: e.ids.clone(), cat: e.cat.clone(), tracked: e.tracked.clone(), commitment: e.commitment, init_claims, init_locked, n_blocks };
+	let fin = LpFinal { h0, h0_hash, steps, ids: e.ids.clone(), cat: e.cat.clone(), tracked: e.tracked.clone(), commitment: e.commitment, init_claims, init_locked, by_node: e.by_node.clone(), n_blocks };
 	std::mem::forget(e);
 	Ok(fin)
 }
